@@ -74,12 +74,15 @@ func (a *sessionAwareAdapter) cleaner() {
 			}
 		}
 
-		for i := len(a.packets) - 1; i >= 0; i-- {
-			packet := a.packets[i]
-			if packet.HasExpired(a.maxDisconnectDuration) {
-				a.packets = append(a.packets[:i], a.packets[i+1:]...)
-				break
-			}
+		// Packets are kept in emission order, so the expired ones are at the beginning.
+		// Nothing else may be removed: a session is restored from the packets that
+		// follow the client's offset, and a hole in them would go unnoticed.
+		expired := 0
+		for expired < len(a.packets) && a.packets[expired].HasExpired(a.maxDisconnectDuration) {
+			expired++
+		}
+		if expired > 0 {
+			a.packets = append([]*PersistedPacket(nil), a.packets[expired:]...)
 		}
 		a.mu.Unlock()
 	}
